@@ -100,11 +100,24 @@ func parseEgressSocks5Request(data []byte) (*model.Request, error) {
 }
 
 func (s *Server) rejectPrivateAndLoopbackIPAction(_ context.Context, in egress.Input, req *model.Request) egress.Action {
-	ip := req.DstAddr.IP
-	if len(ip) == 0 && req.DstAddr.FQDN != "" {
+	if s.isDestinationAllowed(req.DstAddr, in.Env["user"]) {
+		return egress.Action{
+			Action: appctlpb.EgressAction_DIRECT,
+		}
+	}
+	return egress.Action{
+		Action: appctlpb.EgressAction_REJECT,
+	}
+}
+
+// isDestinationAllowed returns false if the destination is a loopback or
+// private address that the user is not allowed to access.
+func (s *Server) isDestinationAllowed(dst model.AddrSpec, userName string) bool {
+	ip := dst.IP
+	if len(ip) == 0 && dst.FQDN != "" {
 		// If we do a DNS lookup, we leak the destination domain name to the DNS server.
 		// For user privacy, we only check some well-known local domain names.
-		domainName := req.DstAddr.FQDN
+		domainName := dst.FQDN
 		isWellKnownIPv4LocalDomainName := false
 		isWellKnownIPv6LocalDomainName := false
 		for _, d := range wellKnownIPv4LocalDomainNames {
@@ -124,9 +137,7 @@ func (s *Server) rejectPrivateAndLoopbackIPAction(_ context.Context, in egress.I
 		} else if isWellKnownIPv6LocalDomainName {
 			ip = net.ParseIP("::1")
 		} else {
-			return egress.Action{
-				Action: appctlpb.EgressAction_DIRECT,
-			}
+			return true
 		}
 	} else if len(ip) == 0 {
 		// An empty host is dialed as the local machine.
@@ -136,47 +147,32 @@ func (s *Server) rejectPrivateAndLoopbackIPAction(_ context.Context, in egress.I
 	// An unspecified address (0.0.0.0 or ::) is dialed as the local machine.
 	isLoopback := ip.IsLoopback() || ip.IsUnspecified()
 	if !ip.IsPrivate() && !isLoopback {
-		return egress.Action{
-			Action: appctlpb.EgressAction_DIRECT,
-		}
+		return true
 	}
 
 	// For testing propose, allow bypassing the user check below.
 	if isLoopback && s.config.AllowLoopbackDestination {
-		return egress.Action{
-			Action: appctlpb.EgressAction_DIRECT,
-		}
+		return true
 	}
 
 	// Load user information.
-	userName, ok := in.Env["user"]
-	if !ok || userName == "" {
+	if userName == "" {
 		// User name is unknown.
 		// By default, we reject the request.
-		return egress.Action{
-			Action: appctlpb.EgressAction_REJECT,
-		}
+		return false
 	}
 	user, ok := s.config.Users[userName]
 	if !ok {
 		// User is not registered.
 		// By default, we reject the request.
-		return egress.Action{
-			Action: appctlpb.EgressAction_REJECT,
-		}
+		return false
 	}
 	if ip.IsPrivate() && user.GetAllowPrivateIP() {
-		return egress.Action{
-			Action: appctlpb.EgressAction_DIRECT,
-		}
+		return true
 	} else if isLoopback && user.GetAllowLoopbackIP() {
-		return egress.Action{
-			Action: appctlpb.EgressAction_DIRECT,
-		}
+		return true
 	}
-	return egress.Action{
-		Action: appctlpb.EgressAction_REJECT,
-	}
+	return false
 }
 
 func (s *Server) forwardToProxyAction(_ context.Context, req *model.Request) egress.Action {
